@@ -61,6 +61,8 @@ pub fn c02_c03_c11(ctx: &mut Ctx, which: &str) {
             let g = mk(n, &inits, &edges, bound, props.clone());
             let reach = g.reach();
             for (st, th) in strategies() {
+                // C19 ("once told to run to completion the on-demand checker finishes like BFS"): on-demand only
+                if which == "c19" && !(st == Strategy::OnDemand && th == 1) { continue; }
                 let case = format!("{}:{:?}x{}:g{}p{}:{}", which, st, th, gi, pi, g.describe());
                 if !ctx.want(&case) { continue; }
                 let o = run(&g, st, &Opts { threads: th, ..Default::default() });
@@ -104,12 +106,13 @@ pub fn c02_c03_c11(ctx: &mut Ctx, which: &str) {
                 if !o.labels_ok { ok_path = false; notes.push_str("[a discovery path labels a step with an action that does not lead to the next state]"); }
                 match which {
                     "c02" => ctx.check(&case, &format!("c02-{:?}-verdict", st).to_lowercase(), &["CB.check_block.loop1.invariant.discovery-always", "CB.check_block.loop1.invariant.discovery-sometimes"], fin && ok_verdict, format!("finished={} {}", fin, notes), "a discovery iff a reachable witness exists".into()),
+                    "c19" => ctx.check(&case, "c19-ondemand-does-not-finish-like-bfs", &["OND.check_block.ensures.partition", "OND.check_block.loop3.invariant.terminal"], fin && ok_verdict && ok_path && ok_ev_sound && ok_ev_forest, format!("finished={} {}", fin, notes), "after run_to_completion: a discovery iff a witness exists, genuine paths, eventually exact on forests".into()),
                     "c03" => ctx.check(&case, &format!("c03-{:?}-witness-path", st).to_lowercase(), &["CB.check_block.loop1.invariant.ebits-exact", "CB.reconstruct_path.ensures.real-path"], ok_path, notes.clone(), "every discovery is a genuine witness path".into()),
                     _ => ctx.check(&case, &format!("c11-{:?}-eventually", st).to_lowercase(), &["CB.check_block.loop1.invariant.ebits-exact"], ok_ev_sound && ok_ev_forest, notes.clone(), "no false alarm; exact on forests".into()),
                 }
             }
             // simulation: witness paths only (C03, C11 soundness); stops when everything is discovered or by target
-            if which != "c02" {
+            if which != "c02" && which != "c19" {
                 let case = format!("{}:Sim:g{}p{}:{}", which, gi, pi, g.describe());
                 if ctx.want(&case) {
                     let o = run(&g, Strategy::Sim, &Opts { threads: 1, target_states: Some(40), seed: seed() + gi as u64, ..Default::default() });
